@@ -348,3 +348,148 @@ func (c *Ctx) PrintAll() {
 		fmt.Printf("  %-13s [%s] %s @ %s :: %s\n", o.Status, o.Config, o.Key, o.Pos, o.Detail)
 	}
 }
+
+// ErrChecked: the error result of call is not swallowed — following only edges
+// on which it may be non-nil, no return whose error operand may be nil (and no
+// return at all in functions without error result, when failRet is set) is
+// reachable. One obligation per call.
+func (c *Ctx) ErrChecked(rule, key string, fn *ssa.Function, calls []ssa.Instruction, what string) {
+	c.Touch(fn)
+	ord := map[string]int{}
+	for _, call := range calls {
+		c.Sites++
+		cn := "?"
+		if cc, ok := call.(ssa.CallInstruction); ok {
+			cn = shortCallee(cc)
+		}
+		ord[cn]++
+		k := fmt.Sprintf("%s %s %s#%d", FuncName(fn), key, cn, ord[cn])
+		e := ErrOf(call)
+		if e == nil {
+			if cc, ok := call.(ssa.CallInstruction); ok && sigHasError(cc) {
+				c.Ob(rule, k, false, InstrPos(call), "error result is discarded at the call: "+what)
+			} else {
+				c.Undecided(rule, k, InstrPos(call), "call has no error result: "+what)
+			}
+			continue
+		}
+		if len(*e.Referrers()) == 0 {
+			c.Ob(rule, k, false, InstrPos(call), "error result is never used: "+what)
+			continue
+		}
+		cut := PassEdges(fn, ErrNil(e))
+		hit, path := Search(After(call), func(in ssa.Instruction) bool {
+			r, ok := in.(*ssa.Return)
+			if !ok {
+				return false
+			}
+			op := ReturnErrOperand(r)
+			if op == nil {
+				return false
+			}
+			k := ErrKindsFrom(op, e, call)
+			return k["nil"] || k["unknown"]
+		}, SearchOpt{Cut: cut})
+		if hit != nil {
+			c.Ob(rule, k, false, InstrPos(call), fmt.Sprintf("a nil-error return at %s is reachable on the path where this error is non-nil (%s); path %s", c.P.Pos(InstrPos(hit)), what, DescribePath(c.P, fn, path)))
+		} else {
+			c.Ob(rule, k, true, InstrPos(call), what)
+		}
+	}
+}
+
+// CallersOf returns every static call site of fn in the module.
+func (p *Prog) CallersOf(fn *ssa.Function) []ssa.CallInstruction {
+	if p.callers == nil {
+		p.callers = map[*ssa.Function][]ssa.CallInstruction{}
+		for _, f := range p.AllSrcFuncs() {
+			for _, b := range f.Blocks {
+				for _, in := range b.Instrs {
+					if c, ok := in.(ssa.CallInstruction); ok {
+						if cal := StaticFn(c); cal != nil {
+							p.callers[cal] = append(p.callers[cal], c)
+						}
+					}
+				}
+			}
+		}
+	}
+	return p.callers[fn]
+}
+
+// GuardUp: like Guard, but when a sink is not guarded inside its own function the
+// obligation moves to every static call site of that function (up to depth
+// levels). cutOf computes the pass edges of the guard in a given function.
+// skip lets a property hand a call chain over to another property's check.
+func (c *Ctx) GuardUp(rule, key string, fn *ssa.Function, sinks []ssa.Instruction, cutOf func(*ssa.Function) map[Edge]bool, depth int, skip func(caller *ssa.Function) bool, what string) {
+	var rec func(fn *ssa.Function, sink ssa.Instruction, d int, chain string) (bool, string)
+	rec = func(fn *ssa.Function, sink ssa.Instruction, d int, chain string) (bool, string) {
+		c.Touch(fn)
+		cut := cutOf(fn)
+		if len(cut) > 0 {
+			if hit, _ := Search(Entry(fn), Is(sink), SearchOpt{Cut: cut}); hit == nil {
+				return true, ""
+			}
+		}
+		if d == 0 {
+			return false, chain + " <- " + FuncName(fn) + " (depth bound reached)"
+		}
+		root := fn
+		for root.Parent() != nil {
+			root = root.Parent()
+		}
+		cs := c.P.CallersOf(root)
+		if len(cs) == 0 {
+			return false, chain + " <- " + FuncName(fn) + " (unguarded, no static caller)"
+		}
+		for _, call := range cs {
+			caller := call.Parent()
+			if skip != nil && skip(caller) {
+				continue
+			}
+			ok, why := rec(caller, call.(ssa.Instruction), d-1, chain+" <- "+FuncName(fn))
+			if !ok {
+				return false, why
+			}
+		}
+		return true, ""
+	}
+	for i, s := range sinks {
+		c.Sites++
+		k := fmt.Sprintf("%s %s sink#%d", FuncName(fn), key, i)
+		ok, why := rec(fn, s, depth, "sink")
+		if ok {
+			c.Ob(rule, k, true, InstrPos(s), what)
+		} else {
+			c.Ob(rule, k, false, InstrPos(s), "sink reachable without the guard ("+what+") via "+why)
+		}
+	}
+}
+
+func sigHasError(c ssa.CallInstruction) bool {
+	res := c.Common().Signature().Results()
+	for i := 0; i < res.Len(); i++ {
+		if isErrorType(res.At(i).Type()) {
+			return true
+		}
+	}
+	return false
+}
+
+// shortCallee renders a callee without its package path: "(*Needle).Append", "os.Rename".
+func shortCallee(c ssa.CallInstruction) string {
+	n := Callee(c)
+	if n == "" {
+		return "dynamic"
+	}
+	if i := strings.LastIndex(n, "/"); i >= 0 {
+		pre := ""
+		if strings.HasPrefix(n, "(*") {
+			pre = "(*"
+		} else if strings.HasPrefix(n, "(") {
+			pre = "("
+		}
+		n = pre + n[i+1:]
+	}
+	return n
+}
